@@ -68,7 +68,7 @@ inline const Complement &as_Complement(const Basic &b) { return *b.cm_; }
 inline const Contains &as_Contains(const Basic &b) { return *b.ct_; }
 struct Pow { RCPBasic base_, exp_; hash_t __hash__() const; bool __eq__(const Basic &o) const; int compare(const Basic &o) const; };
 struct Interval { RCPBasic start_, end_; bool left_open_, right_open_; hash_t __hash__() const; bool __eq__(const Basic &o) const; int compare(const Basic &o) const; };
-struct Add { RCPBasic coef_; umap_basic_num dict_; hash_t __hash__() const; bool __eq__(const Basic &o) const; };
+struct Add { RCPBasic coef_; umap_basic_num dict_; hash_t __hash__() const; bool __eq__(const Basic &o) const; int compare(const Basic &o) const; };
 struct Mul { RCPBasic coef_; map_basic_basic dict_; hash_t __hash__() const; bool __eq__(const Basic &o) const; int compare(const Basic &o) const; };
 /* type tests a maintenance edit may use on a child */
 #define IS_A_CODE(C, code) inline bool is_a_##C(const Basic &b) { return b.type_code_ == code; }
@@ -100,6 +100,15 @@ inline const OneArgFunction &as_OneArgFunction(const Basic &b) { return *b.oa_; 
 struct vec3 { mutable RCPBasic d[3]; unsigned n; unsigned size() const { return n; } RCPBasic *begin() const { return &d[0]; } RCPBasic *end() const { return &d[0] + n; } };
 #include "ordered.inc"       /* ordered_compare (dict.h), instantiated for the vector stub; ordered_eq / ordered_compare / pair and map overloads for the Mul dictionary */
 #include "keyless.inc"       /* struct RCPBasicKeyLess (basic.h), verbatim */
+/* map_basic_num adict(dict_.begin(), dict_.end()) in Add::compare: ASSUMED CONTRACT of the std::map range constructor — the same pairs,
+   ordered by the map's comparator, which is the real RCPBasicKeyLess text above (at most 2 entries: one comparison) */
+inline void sorted_map(const umap_basic_num &u, map_basic_basic &m)
+{
+  RCPBasicKeyLess less; umap_pair p0 = u.at(0), p1 = u.at(1);
+  m.n = u.n;
+  if (u.n == 2 && less(p1.first, p0.first)) { m.d[0].first = p1.first; m.d[0].second = p1.second; m.d[1].first = p0.first; m.d[1].second = p0.second; }
+  else { m.d[0].first = p0.first; m.d[0].second = p0.second; m.d[1].first = p1.first; m.d[1].second = p1.second; }
+}
 #include "comp.inc"
 /* virtual dispatch (vtable not modelled): abstract children answer from their ghost contract data */
 hash_t Basic::__hash__() const
@@ -114,7 +123,7 @@ bool Basic::__eq__(const Basic &o) const
 }
 int Basic::compare(const Basic &o) const
 {
-  switch (CLS) { case 1: return pow_->compare(o); case 2: return iv_->compare(o); case 3: return ta_->compare(o); case 6: return cm_->compare(o); case 7: return ct_->compare(o); case 10: return mul_->compare(o); default: return oa_->compare(o); }
+  switch (CLS) { case 1: return pow_->compare(o); case 2: return iv_->compare(o); case 3: return ta_->compare(o); case 6: return cm_->compare(o); case 7: return ct_->compare(o); case 10: return mul_->compare(o); case 5: return add_->compare(o); default: return oa_->compare(o); }
 }
 int Basic::__cmp__(const Basic &o) const { return rank < o.rank ? -1 : (rank > o.rank ? 1 : 0); }     /* children only: the assumed contract */
 
@@ -185,7 +194,7 @@ extern "C" void h_comp_c01(void)
   OBL("C01." CLSNAME ".hash_cache_returns_the_same_value", X.b.hash() == hx);
   REACHABLE("h_comp_c01");
 }
-#if CLS != 5
+#if 1
 extern "C" void h_comp_c02(void)
 {
   any_children(); Obj X, Y, Z; TypeID tc = parent_code(); any_parent(X, tc); any_parent(Y, tc); any_parent(Z, tc);     /* compare() is only called for equal type codes (Basic::__cmp__) */
